@@ -119,6 +119,18 @@ func (s *Sim) Step(pr Profile) string {
 			o := s.Relay(p.dst(), s.BuildRecv(p, 0, s.addr(p.dst())), &opMeta{kind: "recv", pkt: p, hostile: "out-of-order"})
 			return "recv-ooo-" + okStr(o)
 		}},
+		{pr.OutOfOrder, func() string {
+			// acknowledge a later packet of an ORDERED lane before its predecessor
+			p := s.pick(func(p *Pkt) bool { return p.L.Ordered && p.received() && p.ackKnown() && !p.terminal() && !s.isOrderedAckHead(p) })
+			if p == nil {
+				return ""
+			}
+			if err := s.update(p.L, p.Src); err != nil {
+				return ""
+			}
+			o := s.Relay(p.Src, s.BuildAck(p, 0, s.addr(p.Src)), &opMeta{kind: "ack", pkt: p, hostile: "out-of-order"})
+			return "ack-ooo-" + okStr(o)
+		}},
 		{pr.RecvDup, func() string {
 			p := s.pick(func(p *Pkt) bool { return p.received() })
 			if p == nil {
